@@ -341,5 +341,690 @@ theorem cell_exact (E : Ext) (typ md : Nat) (u : Bool) (v : W.CellVal) (h : W.Ce
   rw [cellLength_at, cellBytes_at]
   exact cell0 E typ md u v h rest
 
+/-! ### images -/
+
+theorem cellOK_typ_lt (typ md : Nat) (u : Bool) (v : W.CellVal) (h : W.CellOK typ md u v) : typ < 256 := by
+  cases v <;> simp only [W.CellOK, W.intTypes, List.mem_cons, Prod.mk.injEq, List.mem_nil_iff, or_false] at h <;> omega
+
+def cellsOf (cs : List (W.ColDef × Bool)) (vs : List (Option W.CellVal)) : Bytes :=
+  (List.zip (cs.map (·.1)) vs).flatMap fun (c, v) => match v with | some x => W.cell c.typ c.md x | none => []
+
+def ImgOK (cols : List (W.ColDef × Bool)) (vals : List (Option W.CellVal)) : Prop :=
+  cols.length = vals.length ∧
+  ∀ p ∈ List.zip cols vals, match p.2 with | some v => W.CellOK p.1.1.typ p.1.1.md p.1.2 v | none => True
+
+theorem sel_nil {α} (xs : List α) : W.selectPresent [] xs = [] := by simp [W.selectPresent]
+theorem sel_false {α} (ps : List Bool) (x : α) (xs : List α) :
+    W.selectPresent (false :: ps) (x :: xs) = W.selectPresent ps xs := by simp [W.selectPresent]
+theorem sel_true {α} (ps : List Bool) (x : α) (xs : List α) :
+    W.selectPresent (true :: ps) (x :: xs) = x :: W.selectPresent ps xs := by simp [W.selectPresent]
+
+theorem cellsOf_nil (vs : List (Option W.CellVal)) : cellsOf [] vs = [] := by simp [cellsOf]
+theorem cellsOf_none (col : W.ColDef × Bool) (cs : List (W.ColDef × Bool)) (vs : List (Option W.CellVal)) :
+    cellsOf (col :: cs) (none :: vs) = cellsOf cs vs := by simp [cellsOf]
+theorem cellsOf_some (col : W.ColDef × Bool) (cs : List (W.ColDef × Bool)) (x : W.CellVal) (vs : List (Option W.CellVal)) :
+    cellsOf (col :: cs) (some x :: vs) = W.cell col.1.typ col.1.md x ++ cellsOf cs vs := by simp [cellsOf]
+
+theorem imgOK_cons (col : W.ColDef × Bool) (cs : List (W.ColDef × Bool)) (v : Option W.CellVal)
+    (vs : List (Option W.CellVal)) (h : ImgOK (col :: cs) (v :: vs)) :
+    (∀ x, v = some x → W.CellOK col.1.typ col.1.md col.2 x) ∧ ImgOK cs vs := by
+  obtain ⟨hl, hall⟩ := h
+  refine ⟨?_, by simpa using hl, ?_⟩
+  · intro x hx; subst hx
+    exact hall (col, some x) (by simp)
+  · intro p hp
+    exact hall p (by simp [hp])
+
+theorem skip_gen (tm : TableMap) (pb nb : Bitmap) (rest : Bytes) :
+    ∀ (cs : List (W.ColDef × Bool)) (ps : List Bool) (vs : List (Option W.CellVal)) (c vi : Nat) (pre : Bytes),
+      ps.length = cs.length →
+      ImgOK (W.selectPresent ps cs) vs →
+      (∀ j b, ps[j]? = some b → pb.bit (c + j) = .ok b) →
+      (∀ j col, cs[j]? = some col →
+        tm.types.get (c + j) = .ok (UInt8.ofNat col.1.typ) ∧ tm.metadata[c + j]? = some col.1.md) →
+      (∀ j v, vs[j]? = some v → nb.bit (vi + j) = .ok v.isNone) →
+      skipImage (pre ++ (cellsOf (W.selectPresent ps cs) vs ++ rest)) tm pb nb cs.length c vi pre.length
+        = .ok (pre.length + (cellsOf (W.selectPresent ps cs) vs).length) := by
+  intro cs
+  induction cs with
+  | nil =>
+    intro ps vs c vi pre hl hok hp ht hn
+    simp [skipImage, W.selectPresent, cellsOf]
+  | cons col cs ih =>
+    intro ps vs c vi pre hl hok hp ht hn
+    cases ps with
+    | nil => simp at hl
+    | cons p ps =>
+      have hl' : ps.length = cs.length := by simpa using hl
+      have hp0 := hp 0 p rfl
+      have ht0 := ht 0 col rfl
+      have hp' : ∀ j b, ps[j]? = some b → pb.bit (c + 1 + j) = .ok b := by
+        intro j b hj; have := hp (j + 1) b (by simpa using hj); rwa [Nat.add_assoc, Nat.add_comm 1 j]
+      have ht' : ∀ j col, cs[j]? = some col →
+          tm.types.get (c + 1 + j) = .ok (UInt8.ofNat col.1.typ) ∧ tm.metadata[c + 1 + j]? = some col.1.md := by
+        intro j b hj; have := ht (j + 1) b (by simpa using hj); rwa [Nat.add_assoc, Nat.add_comm 1 j]
+      rw [Nat.add_zero] at hp0 ht0
+      simp only [List.length_cons, skipImage, hp0, Res.ok_bind]
+      cases p with
+      | false =>
+        rw [sel_false] at hok ⊢
+        simp only [Bool.not_false, ↓reduceIte]
+        exact ih ps vs (c + 1) vi pre hl' hok hp' ht' hn
+      | true =>
+        rw [sel_true] at hok ⊢
+        simp only [Bool.not_true, Bool.false_eq_true, ↓reduceIte]
+        cases vs with
+        | nil => have := hok.1; simp at this
+        | cons v vs =>
+          obtain ⟨hv, hok'⟩ := imgOK_cons _ _ _ _ hok
+          have hn0 := hn 0 v rfl
+          rw [Nat.add_zero] at hn0
+          have hn' : ∀ j v, vs[j]? = some v → nb.bit (vi + 1 + j) = .ok v.isNone := by
+            intro j b hj; have := hn (j + 1) b (by simpa using hj); rwa [Nat.add_assoc, Nat.add_comm 1 j]
+          simp only [hn0, Res.ok_bind]
+          cases v with
+          | none =>
+            rw [cellsOf_none]
+            simp only [Option.isNone_none, ↓reduceIte]
+            exact ih ps vs (c + 1) (vi + 1) pre hl' hok' hp' ht' hn'
+          | some x =>
+            have hc := hv x rfl
+            have hlt := cellOK_typ_lt _ _ _ _ hc
+            rw [cellsOf_some]
+            simp only [Option.isNone_some, Bool.false_eq_true, ↓reduceIte, ht0.1, ht0.2, Res.ok_bind,
+              UInt8.toNat_ofNat', Nat.mod_eq_of_lt hlt, List.append_assoc]
+            rw [(cell_exact ⟨fun _ => [], fun _ => [], fun _ => [], fun _ => 0⟩ col.1.typ col.1.md col.2 x hc pre _).1]
+            simp only [Res.ok_bind]
+            have := ih ps vs (c + 1) (vi + 1) (pre ++ W.cell col.1.typ col.1.md x) hl' hok' hp' ht' hn'
+            simp only [List.append_assoc, List.length_append] at this
+            rw [this, List.length_append, Nat.add_assoc]
+
+theorem bit_written (bits : List Bool) (n j : Nat) (b : Bool) (h : bits[j]? = some b) :
+    Bitmap.bit ⟨W.bitmapBytes bits, n⟩ j = .ok b := by
+  obtain ⟨hj, rfl⟩ := List.getElem?_eq_some_iff.mp h
+  exact C15.bitmap_bit bits j hj
+
+theorem nulls_written (vals : List (Option W.CellVal)) (n vi j : Nat) (v : Option W.CellVal) (h : vals[j]? = some v)
+    (hvi : vi = 0) : Bitmap.bit ⟨W.bitmapBytes (vals.map (·.isNone)), n⟩ (vi + j) = .ok v.isNone := by
+  subst hvi; rw [Nat.zero_add]
+  exact bit_written _ _ _ _ (by simp [h])
+
+theorem image_skipped (tmTypes : Bytes) (tmMd : List Nat) (allCols : List (W.ColDef × Bool)) (present : List Bool)
+    (hp : present.length = allCols.length)
+    (htm : tmTypes = allCols.map (fun c => UInt8.ofNat c.1.typ) ∧ tmMd = allCols.map (fun c => c.1.md))
+    (vals : List (Option W.CellVal)) (hok : ImgOK (W.selectPresent present allCols) vals) (pre rest : Bytes) :
+    skipImage (pre ++ (cellsOf (W.selectPresent present allCols) vals ++ rest))
+      { flags := 0, database := [], name := [], types := tmTypes, canBeNull := ⟨[], 0⟩, metadata := tmMd }
+      ⟨W.bitmapBytes present, present.length⟩ ⟨W.bitmapBytes (vals.map (·.isNone)), vals.length⟩
+      allCols.length 0 0 pre.length = .ok (pre.length + (cellsOf (W.selectPresent present allCols) vals).length) := by
+  obtain ⟨rfl, rfl⟩ := htm
+  apply skip_gen _ _ _ rest allCols present vals 0 0 pre hp hok
+  · intro j b hj; rw [Nat.zero_add]; exact bit_written _ _ _ _ hj
+  · intro j col hj
+    rw [Nat.zero_add]
+    simp [Bytes.get, hj]
+  · intro j v hj; exact nulls_written _ _ _ _ _ hj rfl
+
+/-- what the column loop must produce: per table column absent / NULL / the canonical text -/
+def expectCols (E : Ext) : List (W.ColDef × Bool) → List Bool → List Bytes → List (Option W.CellVal) → List ColumnData
+  | col :: cs, false :: ps, n :: ns, vs => ⟨n, col.1.typ, .absent⟩ :: expectCols E cs ps ns vs
+  | col :: cs, true :: ps, n :: ns, none :: vs => ⟨n, col.1.typ, .null⟩ :: expectCols E cs ps ns vs
+  | col :: cs, true :: ps, n :: ns, some x :: vs => ⟨n, col.1.typ, .value (txt E col.1.md x)⟩ :: expectCols E cs ps ns vs
+  | _, _, _, _ => []
+
+theorem rc_gen (E : Ext) (tm : TableMap) (ti : TableInfo) (pb nb : Bitmap) (rest : Bytes) :
+    ∀ (cs : List (W.ColDef × Bool)) (ps : List Bool) (ns : List Bytes) (vs : List (Option W.CellVal)) (c vi : Nat)
+      (pre : Bytes),
+      ps.length = cs.length → ns.length = cs.length →
+      ImgOK (W.selectPresent ps cs) vs →
+      (∀ col ∈ cs, col.1.typ < 256) →
+      (∀ j b, ps[j]? = some b → pb.bit (c + j) = .ok b) →
+      (∀ j col, cs[j]? = some col →
+        tm.types.get (c + j) = .ok (UInt8.ofNat col.1.typ) ∧ tm.metadata[c + j]? = some col.1.md) →
+      (∀ j n col, ns[j]? = some n → cs[j]? = some col → ti.columns[c + j]? = some (n, col.2)) →
+      (∀ j v, vs[j]? = some v → nb.bit (vi + j) = .ok v.isNone) →
+      rowColumns E tm ti pb nb (pre ++ (cellsOf (W.selectPresent ps cs) vs ++ rest)) cs.length c vi pre.length
+        = .ok (expectCols E cs ps ns vs) := by
+  intro cs
+  induction cs with
+  | nil =>
+    intro ps ns vs c vi pre hl hnl hok hty hp ht hti hn
+    simp [rowColumns, expectCols]
+  | cons col cs ih =>
+    intro ps ns vs c vi pre hl hnl hok hty hp ht hti hn
+    cases ps with
+    | nil => simp at hl
+    | cons p ps =>
+    cases ns with
+    | nil => simp at hnl
+    | cons n ns =>
+      have hl' : ps.length = cs.length := by simpa using hl
+      have hnl' : ns.length = cs.length := by simpa using hnl
+      have hty' : ∀ col ∈ cs, col.1.typ < 256 := fun x hx => hty x (List.mem_cons_of_mem _ hx)
+      have hlt : col.1.typ < 256 := hty col (List.mem_cons_self)
+      have hp0 := hp 0 p rfl
+      have ht0 := ht 0 col rfl
+      have hti0 := hti 0 n col rfl rfl
+      have hp' : ∀ j b, ps[j]? = some b → pb.bit (c + 1 + j) = .ok b := by
+        intro j b hj; have := hp (j + 1) b (by simpa using hj); rwa [Nat.add_assoc, Nat.add_comm 1 j]
+      have ht' : ∀ j col, cs[j]? = some col →
+          tm.types.get (c + 1 + j) = .ok (UInt8.ofNat col.1.typ) ∧ tm.metadata[c + 1 + j]? = some col.1.md := by
+        intro j b hj; have := ht (j + 1) b (by simpa using hj); rwa [Nat.add_assoc, Nat.add_comm 1 j]
+      have hti' : ∀ j n col, ns[j]? = some n → cs[j]? = some col → ti.columns[c + 1 + j]? = some (n, col.2) := by
+        intro j a b hj hj'; have := hti (j + 1) a b (by simpa using hj) (by simpa using hj')
+        rwa [Nat.add_assoc, Nat.add_comm 1 j]
+      rw [Nat.add_zero] at hp0 ht0 hti0
+      simp only [List.length_cons, rowColumns, hti0, ht0.1, hp0, Res.ok_bind, UInt8.toNat_ofNat',
+        Nat.mod_eq_of_lt hlt]
+      cases p with
+      | false =>
+        rw [sel_false] at hok ⊢
+        simp only [Bool.not_false, ↓reduceIte]
+        rw [ih ps ns vs (c + 1) vi pre hl' hnl' hok hty' hp' ht' hti' hn]
+        simp [expectCols]
+      | true =>
+        rw [sel_true] at hok ⊢
+        simp only [Bool.not_true, Bool.false_eq_true, ↓reduceIte]
+        cases vs with
+        | nil => have := hok.1; simp at this
+        | cons v vs =>
+          obtain ⟨hv, hok'⟩ := imgOK_cons _ _ _ _ hok
+          have hn0 := hn 0 v rfl
+          rw [Nat.add_zero] at hn0
+          have hn' : ∀ j v, vs[j]? = some v → nb.bit (vi + 1 + j) = .ok v.isNone := by
+            intro j b hj; have := hn (j + 1) b (by simpa using hj); rwa [Nat.add_assoc, Nat.add_comm 1 j]
+          simp only [hn0, Res.ok_bind]
+          cases v with
+          | none =>
+            rw [cellsOf_none]
+            simp only [Option.isNone_none, ↓reduceIte]
+            rw [ih ps ns vs (c + 1) (vi + 1) pre hl' hnl' hok' hty' hp' ht' hti' hn']
+            simp [expectCols]
+          | some x =>
+            have hc := hv x rfl
+            rw [cellsOf_some]
+            simp only [Option.isNone_some, Bool.false_eq_true, ↓reduceIte, ht0.2, List.append_assoc]
+            rw [(cell_exact E col.1.typ col.1.md col.2 x hc pre _).2]
+            simp only [Res.ok_bind]
+            have := ih ps ns vs (c + 1) (vi + 1) (pre ++ W.cell col.1.typ col.1.md x) hl' hnl' hok' hty' hp' ht' hti' hn'
+            simp only [List.append_assoc, List.length_append] at this
+            rw [this]
+            simp [expectCols]
+
+theorem expect_props (E : Ext) :
+    ∀ (cs : List (W.ColDef × Bool)) (ps : List Bool) (ns : List Bytes) (vs : List (Option W.CellVal)),
+      ps.length = cs.length → ns.length = cs.length → (W.selectPresent ps cs).length = vs.length →
+      (expectCols E cs ps ns vs).length = cs.length ∧
+      ∀ i (hi : i < cs.length), ∃ cd, (expectCols E cs ps ns vs)[i]? = some cd ∧ cd.field = ns[i]! ∧
+        cd.typ = (cs[i]).1.typ ∧ (ps[i]! = false → cd.col = .absent) := by
+  intro cs
+  induction cs with
+  | nil => intro ps ns vs _ _ _; simp [expectCols]
+  | cons col cs ih =>
+    intro ps ns vs hl hnl hs
+    cases ps with
+    | nil => simp at hl
+    | cons p ps =>
+    cases ns with
+    | nil => simp at hnl
+    | cons n ns =>
+      have hl' : ps.length = cs.length := by simpa using hl
+      have hnl' : ns.length = cs.length := by simpa using hnl
+      cases p with
+      | false =>
+        rw [sel_false] at hs
+        obtain ⟨h1, h2⟩ := ih ps ns vs hl' hnl' hs
+        refine ⟨by simp [expectCols, h1], ?_⟩
+        intro i hi
+        cases i with
+        | zero => exact ⟨⟨n, col.1.typ, .absent⟩, by simp [expectCols], by simp, by simp, by simp⟩
+        | succ i =>
+          obtain ⟨cd, a, b, c, d⟩ := h2 i (by simpa using hi)
+          exact ⟨cd, by simpa [expectCols] using a, by simpa using b, by simpa using c, by simpa using d⟩
+      | true =>
+        rw [sel_true] at hs
+        cases vs with
+        | nil => simp at hs
+        | cons v vs =>
+          obtain ⟨h1, h2⟩ := ih ps ns vs hl' hnl' (by simpa using hs)
+          cases v with
+          | none =>
+            refine ⟨by simp [expectCols, h1], ?_⟩
+            intro i hi
+            cases i with
+            | zero => exact ⟨⟨n, col.1.typ, .null⟩, by simp [expectCols], by simp, by simp, by simp⟩
+            | succ i =>
+              obtain ⟨cd, a, b, c, d⟩ := h2 i (by simpa using hi)
+              exact ⟨cd, by simpa [expectCols] using a, by simpa using b, by simpa using c, by simpa using d⟩
+          | some x =>
+            refine ⟨by simp [expectCols, h1], ?_⟩
+            intro i hi
+            cases i with
+            | zero => exact ⟨⟨n, col.1.typ, .value (txt E col.1.md x)⟩, by simp [expectCols], by simp, by simp, by simp⟩
+            | succ i =>
+              obtain ⟨cd, a, b, c, d⟩ := h2 i (by simpa using hi)
+              exact ⟨cd, by simpa [expectCols] using a, by simpa using b, by simpa using c, by simpa using d⟩
+
+theorem image_consumed (E : Ext) (allCols : List (W.ColDef × Bool)) (names : List Bytes) (present : List Bool)
+    (hp : present.length = allCols.length) (hn : names.length = allCols.length)
+    (htyp : ∀ c ∈ allCols, c.1.typ < 256)
+    (vals : List (Option W.CellVal)) (hok : ImgOK (W.selectPresent present allCols) vals) :
+    rowColumns E
+      { flags := 0, database := [], name := [], types := allCols.map (fun c => UInt8.ofNat c.1.typ),
+        canBeNull := ⟨[], 0⟩, metadata := allCols.map (fun c => c.1.md) }
+      { db := [], table := [], columns := List.zip names (allCols.map (·.2)) }
+      ⟨W.bitmapBytes present, present.length⟩ ⟨W.bitmapBytes (vals.map (·.isNone)), vals.length⟩
+      (cellsOf (W.selectPresent present allCols) vals) allCols.length 0 0 0
+      = .ok (expectCols E allCols present names vals) := by
+  have := rc_gen E
+    { flags := 0, database := [], name := [], types := allCols.map (fun c => UInt8.ofNat c.1.typ),
+      canBeNull := ⟨[], 0⟩, metadata := allCols.map (fun c => c.1.md) }
+    { db := [], table := [], columns := List.zip names (allCols.map (·.2)) }
+    ⟨W.bitmapBytes present, present.length⟩ ⟨W.bitmapBytes (vals.map (·.isNone)), vals.length⟩ []
+    allCols present names vals 0 0 [] hp hn hok htyp
+    (by intro j b hj; rw [Nat.zero_add]; exact bit_written _ _ _ _ hj)
+    (by intro j col hj; rw [Nat.zero_add]; simp [Bytes.get, hj])
+    (by intro j n col hj hj'; rw [Nat.zero_add]; simp [List.getElem?_zip_eq_some, hj, hj'])
+    (by intro j v hj; exact nulls_written _ _ _ _ _ hj rfl)
+  simpa using this
+
+/-! ### whole rows events -/
+
+theorem sel_map {α β} (f : α → β) : ∀ (ps : List Bool) (xs : List α),
+    W.selectPresent ps (xs.map f) = (W.selectPresent ps xs).map f := by
+  intro ps
+  induction ps with
+  | nil => intro xs; simp [W.selectPresent]
+  | cons p ps ih =>
+    intro xs
+    cases xs with
+    | nil => simp [W.selectPresent]
+    | cons x xs =>
+      cases p
+      · rw [List.map_cons, sel_false, sel_false, ih]
+      · rw [List.map_cons, sel_true, sel_true, ih, List.map_cons]
+
+theorem sel_length {α} : ∀ (ps : List Bool) (xs : List α), ps.length = xs.length →
+    (W.selectPresent ps xs).length = ps.count true := by
+  intro ps
+  induction ps with
+  | nil => intro xs _; simp [W.selectPresent]
+  | cons p ps ih =>
+    intro xs h
+    cases xs with
+    | nil => simp at h
+    | cons x xs =>
+      have h' : ps.length = xs.length := by simpa using h
+      cases p
+      · rw [sel_false, ih xs h']; simp
+      · rw [sel_true, List.length_cons, ih xs h']; simp
+
+theorem bitCountAux_written (bits : List Bool) (n : Nat) : ∀ i, i ≤ bits.length →
+    Bitmap.bitCountAux ⟨W.bitmapBytes bits, n⟩ i = .ok ((bits.take i).count true) := by
+  intro i
+  induction i with
+  | zero => intro _; simp [Bitmap.bitCountAux]
+  | succ i ih =>
+    intro hi
+    have hlt : i < bits.length := by omega
+    have hb := bit_written bits n i bits[i] (List.getElem?_eq_getElem hlt)
+    simp only [Bitmap.bitCountAux, ih (by omega), hb, Res.ok_bind, Res.pure_eq]
+    rw [List.take_succ_eq_append_getElem hlt, List.count_append]
+    cases bits[i] <;> simp
+
+theorem bitCount_written (bits : List Bool) : Bitmap.bitCount ⟨W.bitmapBytes bits, bits.length⟩ = .ok (bits.count true) := by
+  unfold Bitmap.bitCount
+  rw [bitCountAux_written bits _ _ (Nat.le_refl _), List.take_length]
+
+theorem newBitmap_written (pre rest : Bytes) (bits : List Bool) (cnt pos : Nat) (hc : bits.length = cnt)
+    (hp : pos = pre.length) :
+    newBitmap (pre ++ (W.bitmapBytes bits ++ rest)) pos cnt
+      = .ok (⟨W.bitmapBytes bits, cnt⟩, pos + (W.bitmapBytes bits).length) := by
+  subst hc hp
+  have hl := C15.bitmapBytes_length bits
+  simp only [newBitmap]
+  rw [slice_mid' pre (W.bitmapBytes bits) rest _ _ rfl (by rw [hl])]
+  simp [hl]
+
+theorem imageBytes_eq (sel : List (W.ColDef × Bool)) (vals : List (Option W.CellVal)) :
+    W.imageBytes (sel.map (·.1)) vals = W.bitmapBytes (vals.map (·.isNone)) ++ cellsOf sel vals := rfl
+
+/-- the three steps of the rows loop on one image -/
+theorem img_facts (allCols : List (W.ColDef × Bool)) (ps : List Bool) (hp : ps.length = allCols.length)
+    (vals : List (Option W.CellVal)) (hok : ImgOK (W.selectPresent ps allCols) vals) (pre rest : Bytes) (num n : Nat)
+    (hnum : num = vals.length) (data : Bytes)
+    (hdata : data = pre ++ (W.imageBytes ((W.selectPresent ps allCols).map (·.1)) vals ++ rest)) :
+    let tm : TableMap := { flags := 0, database := [], name := [], types := allCols.map (fun c => UInt8.ofNat c.1.typ),
+                           canBeNull := ⟨[], 0⟩, metadata := allCols.map (fun c => c.1.md) }
+    let bmB := W.bitmapBytes (vals.map (·.isNone))
+    let cells := cellsOf (W.selectPresent ps allCols) vals
+    newBitmap data pre.length num = .ok (⟨bmB, num⟩, pre.length + bmB.length) ∧
+    skipImage data tm ⟨W.bitmapBytes ps, n⟩ ⟨bmB, num⟩ allCols.length 0 0 (pre.length + bmB.length)
+      = .ok (pre.length + bmB.length + cells.length) ∧
+    data.slice (pre.length + bmB.length) (pre.length + bmB.length + cells.length) = .ok cells ∧
+    pre.length + bmB.length + cells.length
+      = (pre ++ W.imageBytes ((W.selectPresent ps allCols).map (·.1)) vals).length := by
+  intro tm bmB cells
+  subst hdata
+  rw [imageBytes_eq]
+  refine ⟨?_, ?_, ?_, ?_⟩
+  · rw [List.append_assoc]
+    exact newBitmap_written pre _ _ num _ (by simp [hnum]) rfl
+  · have := skip_gen tm ⟨W.bitmapBytes ps, n⟩ ⟨bmB, num⟩ rest allCols ps vals 0 0 (pre ++ bmB) hp hok
+      (by intro j b hj; rw [Nat.zero_add]; exact bit_written _ _ _ _ hj)
+      (by intro j col hj; rw [Nat.zero_add]; simp [tm, Bytes.get, hj])
+      (by intro j v hj; exact nulls_written _ _ _ _ _ hj rfl)
+    simpa only [List.append_assoc, List.length_append] using this
+  · have := slice_mid (pre ++ bmB) cells rest
+    simpa only [List.append_assoc, List.length_append] using this
+  · simp only [List.length_append, Nat.add_assoc, bmB, cells]
+
+abbrev RowV := List (Option W.CellVal) × List (Option W.CellVal)
+
+def rowBytes (hi hd : Bool) (selB selA : List (W.ColDef × Bool)) (r : RowV) : Bytes :=
+  (if hi then W.imageBytes (selB.map (·.1)) r.1 else []) ++ (if hd then W.imageBytes (selA.map (·.1)) r.2 else [])
+
+def mkRow (hi hd : Bool) (selB selA : List (W.ColDef × Bool)) (numId numData : Nat) (r : RowV) : Row :=
+  ⟨if hi then ⟨W.bitmapBytes (r.1.map (·.isNone)), numId⟩ else emptyBitmap,
+   if hd then ⟨W.bitmapBytes (r.2.map (·.isNone)), numData⟩ else emptyBitmap,
+   if hi then cellsOf selB r.1 else [], if hd then cellsOf selA r.2 else []⟩
+
+theorem loop_gen (allCols : List (W.ColDef × Bool)) (pb pa : List Bool) (hpb : pb.length = allCols.length)
+    (hpa : pa.length = allCols.length) (hi hd : Bool) (idCols dataCols : Bitmap) (numId numData : Nat)
+    (hid : hi = true → idCols.data = W.bitmapBytes pb ∧ numId = (W.selectPresent pb allCols).length)
+    (hdt : hd = true → dataCols.data = W.bitmapBytes pa ∧ numData = (W.selectPresent pa allCols).length) :
+    ∀ (rows : List RowV),
+      (∀ r ∈ rows, (hi = true → ImgOK (W.selectPresent pb allCols) r.1) ∧
+                   (hd = true → ImgOK (W.selectPresent pa allCols) r.2)) →
+      (∀ r ∈ rows, 0 < (rowBytes hi hd (W.selectPresent pb allCols) (W.selectPresent pa allCols) r).length) →
+      ∀ (pre : Bytes) (fuel : Nat), rows.length < fuel →
+      rowsLoop (pre ++ rows.flatMap (rowBytes hi hd (W.selectPresent pb allCols) (W.selectPresent pa allCols)))
+        { flags := 0, database := [], name := [], types := allCols.map (fun c => UInt8.ofNat c.1.typ),
+          canBeNull := ⟨[], 0⟩, metadata := allCols.map (fun c => c.1.md) }
+        hi hd allCols.length idCols dataCols numId numData fuel pre.length
+        = .ok (rows.map (mkRow hi hd (W.selectPresent pb allCols) (W.selectPresent pa allCols) numId numData)) := by
+  intro rows
+  induction rows with
+  | nil =>
+    intro _ _ pre fuel hf
+    cases fuel with
+    | zero => omega
+    | succ fuel => simp [rowsLoop]
+  | cons r rows ih =>
+    intro hok hwide pre fuel hf
+    cases fuel with
+    | zero => omega
+    | succ fuel =>
+      have hok' := fun r hr => hok r (List.mem_cons_of_mem _ hr)
+      have hwide' := fun r hr => hwide r (List.mem_cons_of_mem _ hr)
+      have hokr := hok r List.mem_cons_self
+      have hw := hwide r List.mem_cons_self
+      have hlt : pre.length < (pre ++ (r :: rows).flatMap
+          (rowBytes hi hd (W.selectPresent pb allCols) (W.selectPresent pa allCols))).length := by
+        simp only [List.flatMap_cons, List.length_append]; omega
+      rw [rowsLoop, if_pos hlt]
+      obtain ⟨idb, idc⟩ := idCols
+      obtain ⟨dtb, dtc⟩ := dataCols
+      cases hi with
+      | false =>
+        cases hd with
+        | false => simp [rowBytes] at hw
+        | true =>
+          obtain ⟨e1, e2⟩ := hdt rfl
+          simp only at e1; subst e1
+          have hokA := hokr.2 rfl
+          have hD : pre ++ (r :: rows).flatMap (rowBytes false true (W.selectPresent pb allCols) (W.selectPresent pa allCols))
+              = pre ++ (W.imageBytes ((W.selectPresent pa allCols).map (·.1)) r.2 ++
+                rows.flatMap (rowBytes false true (W.selectPresent pb allCols) (W.selectPresent pa allCols))) := by
+            simp [rowBytes]
+          rw [hD]
+          obtain ⟨f1, f2, f3, f4⟩ := img_facts allCols pa hpa r.2 hokA pre
+            (rows.flatMap (rowBytes false true (W.selectPresent pb allCols) (W.selectPresent pa allCols)))
+            numData dtc (by rw [e2]; exact hokA.1) _ rfl
+          simp only [Bool.false_eq_true, ↓reduceIte, Res.pure_eq, Res.ok_bind, f1, f2, f3]
+          rw [f4]
+          have := ih hok' hwide' (pre ++ W.imageBytes ((W.selectPresent pa allCols).map (·.1)) r.2) fuel (by simpa using hf)
+          simp only [List.append_assoc] at this
+          simp only [this, Res.ok_bind, List.map_cons, mkRow, Bool.false_eq_true, ↓reduceIte]
+      | true =>
+        obtain ⟨e1, e2⟩ := hid rfl
+        simp only at e1; subst e1
+        have hokB := hokr.1 rfl
+        cases hd with
+        | false =>
+          have hD : pre ++ (r :: rows).flatMap (rowBytes true false (W.selectPresent pb allCols) (W.selectPresent pa allCols))
+              = pre ++ (W.imageBytes ((W.selectPresent pb allCols).map (·.1)) r.1 ++
+                rows.flatMap (rowBytes true false (W.selectPresent pb allCols) (W.selectPresent pa allCols))) := by
+            simp [rowBytes]
+          rw [hD]
+          obtain ⟨f1, f2, f3, f4⟩ := img_facts allCols pb hpb r.1 hokB pre
+            (rows.flatMap (rowBytes true false (W.selectPresent pb allCols) (W.selectPresent pa allCols)))
+            numId idc (by rw [e2]; exact hokB.1) _ rfl
+          simp only [Bool.false_eq_true, ↓reduceIte, Res.pure_eq, Res.ok_bind, f1, f2, f3]
+          rw [f4]
+          have := ih hok' hwide' (pre ++ W.imageBytes ((W.selectPresent pb allCols).map (·.1)) r.1) fuel (by simpa using hf)
+          simp only [List.append_assoc] at this
+          simp only [this, Res.ok_bind, List.map_cons, mkRow, Bool.false_eq_true, ↓reduceIte]
+        | true =>
+          obtain ⟨g1, g2⟩ := hdt rfl
+          simp only at g1; subst g1
+          have hokA := hokr.2 rfl
+          have hD : pre ++ (r :: rows).flatMap (rowBytes true true (W.selectPresent pb allCols) (W.selectPresent pa allCols))
+              = pre ++ (W.imageBytes ((W.selectPresent pb allCols).map (·.1)) r.1 ++
+                (W.imageBytes ((W.selectPresent pa allCols).map (·.1)) r.2 ++
+                rows.flatMap (rowBytes true true (W.selectPresent pb allCols) (W.selectPresent pa allCols)))) := by
+            simp [rowBytes]
+          rw [hD]
+          obtain ⟨f1, f2, f3, f4⟩ := img_facts allCols pb hpb r.1 hokB pre
+            (W.imageBytes ((W.selectPresent pa allCols).map (·.1)) r.2 ++
+              rows.flatMap (rowBytes true true (W.selectPresent pb allCols) (W.selectPresent pa allCols)))
+            numId idc (by rw [e2]; exact hokB.1) _ rfl
+          simp only [↓reduceIte, Res.pure_eq, Res.ok_bind, f1, f2, f3]
+          rw [f4]
+          obtain ⟨f1', f2', f3', f4'⟩ := img_facts allCols pa hpa r.2 hokA
+            (pre ++ W.imageBytes ((W.selectPresent pb allCols).map (·.1)) r.1)
+            (rows.flatMap (rowBytes true true (W.selectPresent pb allCols) (W.selectPresent pa allCols)))
+            numData dtc (by rw [g2]; exact hokA.1) _ (List.append_assoc _ _ _).symm
+          simp only [f1', f2', f3', Res.ok_bind]
+          rw [f4']
+          have := ih hok' hwide' ((pre ++ W.imageBytes ((W.selectPresent pb allCols).map (·.1)) r.1) ++
+            W.imageBytes ((W.selectPresent pa allCols).map (·.1)) r.2) fuel (by simpa using hf)
+          simp only [List.append_assoc] at this ⊢
+          simp only [this, Res.ok_bind, List.map_cons, mkRow, ↓reduceIte]
+
+/-- the header walk of `binlogEvent.Rows` followed by the rows loop, for the three Boolean shape parameters -/
+theorem rows_walk (f : Format) (ev body : Bytes) (typ hs : Nat)
+    (hT : evType ev = .ok typ) (hS : ev.sliceFrom f.headerLength = .ok body) (hH : f.headerSize typ = .ok hs)
+    (hi hd v2 : Bool)
+    (hhi : (typ = Facts.eUpdateRowsEventV1 ∨ typ = Facts.eUpdateRowsEventV2 ∨
+            typ = Facts.eDeleteRowsEventV1 ∨ typ = Facts.eDeleteRowsEventV2) ↔ hi = true)
+    (hhd : (typ = Facts.eWriteRowsEventV1 ∨ typ = Facts.eWriteRowsEventV2 ∨
+            typ = Facts.eUpdateRowsEventV1 ∨ typ = Facts.eUpdateRowsEventV2) ↔ hd = true)
+    (hv2 : (typ = Facts.eWriteRowsEventV2 ∨ typ = Facts.eUpdateRowsEventV2 ∨ typ = Facts.eDeleteRowsEventV2) ↔ v2 = true)
+    (hor : hi = true ∨ hd = true)
+    (idw id flags : Nat) (hpos : (if hs = 6 then 4 else 6) = idw) (hfl : flags < 65536)
+    (extra : Bytes) (hex : extra.length < 65534)
+    (allCols : List (W.ColDef × Bool)) (hne : allCols ≠ []) (hn : allCols.length < 2 ^ 31)
+    (pb pa : List Bool) (hpb : pb.length = allCols.length) (hpa : pa.length = allCols.length)
+    (rows : List RowV)
+    (hok : ∀ r ∈ rows, (hi = true → ImgOK (W.selectPresent pb allCols) r.1) ∧
+                       (hd = true → ImgOK (W.selectPresent pa allCols) r.2))
+    (hwide : ∀ r ∈ rows, 0 < (rowBytes hi hd (W.selectPresent pb allCols) (W.selectPresent pa allCols) r).length)
+    (hbody : body = ofLE idw id ++ (ofLE 2 flags ++ ((if v2 then ofLE 2 (2 + extra.length) ++ extra else []) ++
+      (W.lenenc allCols.length ++ ((if hi then W.bitmapBytes pb else []) ++ ((if hd then W.bitmapBytes pa else []) ++
+        rows.flatMap (rowBytes hi hd (W.selectPresent pb allCols) (W.selectPresent pa allCols)))))))) :
+    M.rows f { flags := 0, database := [], name := [], types := allCols.map (fun c => UInt8.ofNat c.1.typ),
+               canBeNull := ⟨[], 0⟩, metadata := allCols.map (fun c => c.1.md) } ev
+      = .ok { flags := flags,
+              identifyColumns := if hi then ⟨W.bitmapBytes pb, allCols.length⟩ else emptyBitmap,
+              dataColumns := if hd then ⟨W.bitmapBytes pa, allCols.length⟩ else emptyBitmap,
+              rows := rows.map (mkRow hi hd (W.selectPresent pb allCols) (W.selectPresent pa allCols)
+                (if hi then (W.selectPresent pb allCols).length else 0)
+                (if hd then (W.selectPresent pa allCols).length else 0)) } := by
+  unfold M.rows
+  simp only [hT, hS, hH, Res.ok_bind, hhi, hhd, hv2, Bool.decide_eq_true, hpos]
+  -- flags
+  have hflags : readLE body idw 2 = .ok flags := by
+    rw [hbody, C15.readLE_at (ofLE idw id) _ idw 2 flags (by simp)]
+    simp only [Nat.reducePow]; rw [Nat.mod_eq_of_lt hfl]
+  simp only [hflags, Res.ok_bind]
+  -- the prefix before the column count
+  let P1 : Bytes := ofLE idw id ++ (ofLE 2 flags ++ (if v2 then ofLE 2 (2 + extra.length) ++ extra else []))
+  let BB : Bytes := if hi then W.bitmapBytes pb else []
+  let BA : Bytes := if hd then W.bitmapBytes pa else []
+  let R : Bytes := rows.flatMap (rowBytes hi hd (W.selectPresent pb allCols) (W.selectPresent pa allCols))
+  have hpos1 : (if v2 = true then (readLE body (idw + 2) 2 >>= fun edl => pure (idw + 2 + edl)) else pure (idw + 2))
+      = Res.ok P1.length := by
+    cases v2 with
+    | false => simp [P1]
+    | true =>
+      have : body = (ofLE idw id ++ ofLE 2 flags) ++ (ofLE 2 (2 + extra.length) ++ (extra ++
+        (W.lenenc allCols.length ++ (BB ++ (BA ++ R))))) := by simp [hbody, BB, BA, R]
+      rw [if_pos rfl, this, C15.readLE_at _ _ (idw + 2) 2 (2 + extra.length) (by simp)]
+      simp only [Nat.reducePow, Res.ok_bind, Res.pure_eq, P1, if_pos, List.length_append, ofLE_length]
+      rw [Nat.mod_eq_of_lt (by omega)]
+      congr 1; omega
+  simp only [hpos1, Res.ok_bind]
+  have hBBne : BB ++ (BA ++ R) ≠ [] := by
+    have hpos : 0 < (allCols.length + 7) / 8 := by
+      have : 0 < allCols.length := List.length_pos_iff.mpr hne
+      omega
+    intro h
+    have h0 := congrArg List.length h
+    simp only [List.length_append, List.length_nil, BB, BA] at h0
+    rcases hor with h | h
+    · rw [h, if_pos rfl, C15.bitmapBytes_length, hpb] at h0; omega
+    · rw [h, if_pos rfl, C15.bitmapBytes_length, hpa] at h0; omega
+  have hlen : readLenEncInt body P1.length
+      = .ok (some (allCols.length, P1.length + (W.lenenc allCols.length).length)) := by
+    have : body = P1 ++ (W.lenenc allCols.length ++ (BB ++ (BA ++ R))) := by simp [hbody, P1, BB, BA, R]
+    rw [this]
+    exact C15.lenenc_read' P1 _ allCols.length _ (by simp only [Nat.reducePow] at hn ⊢; omega) hBBne rfl
+  have hmax : ¬ allCols.length > maxInt32 := by simp only [Nat.reducePow] at hn; unfold maxInt32; omega
+  simp only [hlen, Res.ok_bind, hmax, ↓reduceIte]
+  let P2 : Bytes := P1 ++ W.lenenc allCols.length
+  have hP2 : P1.length + (W.lenenc allCols.length).length = P2.length := by simp [P2]
+  rw [hP2]
+  have hb2 : body = P2 ++ (BB ++ (BA ++ R)) := by simp [hbody, P2, P1, BB, BA, R]
+  have hB : (if hi = true then
+        (newBitmap body P2.length allCols.length >>= fun x => x.1.bitCount >>= fun n => pure (x.1, n, x.2))
+      else pure (emptyBitmap, 0, P2.length))
+      = Res.ok ((if hi then ⟨W.bitmapBytes pb, allCols.length⟩ else emptyBitmap : Bitmap),
+          (if hi then (W.selectPresent pb allCols).length else 0), (P2 ++ BB).length) := by
+    cases hi with
+    | false => simp [BB]
+    | true =>
+      have : body = P2 ++ (W.bitmapBytes pb ++ (BA ++ R)) := by rw [hb2]; simp [BB]
+      rw [if_pos rfl, this, newBitmap_written P2 _ pb _ _ hpb rfl]
+      simp only [Res.ok_bind, Res.pure_eq, if_pos]
+      have hc := bitCount_written pb
+      rw [hpb] at hc
+      rw [hc, sel_length pb allCols hpb]
+      simp [BB]
+  simp only [hB, Res.ok_bind]
+  have hb3 : body = (P2 ++ BB) ++ (BA ++ R) := by rw [hb2]; simp
+  have hA : (if hd = true then
+        (newBitmap body (P2 ++ BB).length allCols.length >>= fun x => x.1.bitCount >>= fun n => pure (x.1, n, x.2))
+      else pure (emptyBitmap, 0, (P2 ++ BB).length))
+      = Res.ok ((if hd then ⟨W.bitmapBytes pa, allCols.length⟩ else emptyBitmap : Bitmap),
+          (if hd then (W.selectPresent pa allCols).length else 0), ((P2 ++ BB) ++ BA).length) := by
+    cases hd with
+    | false => simp [BA]
+    | true =>
+      have : body = (P2 ++ BB) ++ (W.bitmapBytes pa ++ R) := by rw [hb3]; simp [BA]
+      rw [if_pos rfl, this, newBitmap_written (P2 ++ BB) _ pa _ _ hpa rfl]
+      simp only [Res.ok_bind, Res.pure_eq, if_pos]
+      have hc := bitCount_written pa
+      rw [hpa] at hc
+      rw [hc, sel_length pa allCols hpa]
+      simp [BA, Nat.add_assoc]
+  simp only [hA, Res.ok_bind]
+  have hb4 : body = ((P2 ++ BB) ++ BA) ++ R := by rw [hb3]; simp
+  have hfuel : rows.length < body.length + 1 := by
+    have h1 : rows.length ≤ R.length := by
+      clear hb4 hb3 hA hB hb2 hlen hBBne hpos1 hflags hbody hok
+      induction rows with
+      | nil => simp
+      | cons r rows ih =>
+        have h0 := hwide r List.mem_cons_self
+        have := ih (fun r hr => hwide r (List.mem_cons_of_mem _ hr))
+        simp only [R, List.flatMap_cons, List.length_append, List.length_cons] at this ⊢
+        omega
+    have h2 : R.length ≤ body.length := by rw [hb4]; simp only [List.length_append]; omega
+    omega
+  have hloop := loop_gen allCols pb pa hpb hpa hi hd
+    (if hi then ⟨W.bitmapBytes pb, allCols.length⟩ else emptyBitmap)
+    (if hd then ⟨W.bitmapBytes pa, allCols.length⟩ else emptyBitmap)
+    (if hi then (W.selectPresent pb allCols).length else 0)
+    (if hd then (W.selectPresent pa allCols).length else 0)
+    (by intro h; simp [h]) (by intro h; simp [h]) rows hok hwide ((P2 ++ BB) ++ BA) (body.length + 1) hfuel
+  rw [← hb4] at hloop
+  simp only [hloop, Res.ok_bind, Res.pure_eq]
+
+theorem rowsBody_eq (k : W.RowKind) (v2 : Bool) (idw id flags : Nat) (extra : Bytes) (allCols : List (W.ColDef × Bool))
+    (pb pa : List Bool) (rows : List RowV) :
+    W.rowsBody k v2 idw id flags extra (allCols.map (·.1)) pb pa rows
+      = ofLE idw id ++ (ofLE 2 flags ++ ((if v2 then ofLE 2 (2 + extra.length) ++ extra else []) ++
+        (W.lenenc allCols.length ++ ((if (k != .write) then W.bitmapBytes pb else []) ++
+          ((if (k != .delete) then W.bitmapBytes pa else []) ++
+            rows.flatMap (rowBytes (k != .write) (k != .delete) (W.selectPresent pb allCols)
+              (W.selectPresent pa allCols))))))) := by
+  unfold W.rowsBody
+  simp only [List.append_assoc, List.length_map, sel_map]
+  rfl
+
+theorem rows_roundtrip (f : Format) (hf : f.headerLength = 19) (hdr : Bytes) (hh : hdr.length = 19)
+    (k : W.RowKind) (v2 : Bool) (idw id flags : Nat) (hidw : idw = 4 ∨ idw = 6)
+    (h4 : hdr[4]? = some (UInt8.ofNat (W.rowsEventType k v2)))
+    (hhs : f.headerSize (W.rowsEventType k v2) = .ok (if idw = 4 then 6 else if v2 then 10 else 8))
+    (hfl : flags < 65536) (extra : Bytes) (hex : extra.length < 65534)
+    (cols : List (W.ColDef × Bool)) (hne : cols ≠ []) (hn : cols.length < 2 ^ 31)
+    (pb pa : List Bool) (hpb : pb.length = cols.length) (hpa : pa.length = cols.length)
+    (rows : List RowV)
+    (hrows : ∀ r ∈ rows, (k ≠ .write → ImgOK (W.selectPresent pb cols) r.1) ∧ (k ≠ .delete → ImgOK (W.selectPresent pa cols) r.2))
+    (hwide : ∀ r ∈ rows, 0 < ((if k ≠ .write then W.imageBytes ((W.selectPresent pb cols).map (·.1)) r.1 else []) ++
+                              (if k ≠ .delete then W.imageBytes ((W.selectPresent pa cols).map (·.1)) r.2 else [])).length) :
+    ∃ rs, M.rows f { flags := 0, database := [], name := [], types := cols.map (fun c => UInt8.ofNat c.1.typ),
+                     canBeNull := ⟨[], 0⟩, metadata := cols.map (fun c => c.1.md) }
+            (hdr ++ W.rowsBody k v2 idw id flags extra (cols.map (·.1)) pb pa rows) = .ok rs ∧
+      rs.flags = flags ∧ rs.rows.length = rows.length ∧
+      (k ≠ .write → rs.identifyColumns = ⟨W.bitmapBytes pb, cols.length⟩) ∧
+      (k ≠ .delete → rs.dataColumns = ⟨W.bitmapBytes pa, cols.length⟩) ∧
+      ∀ i (hi : i < rows.length), ∃ r, rs.rows[i]? = some r ∧
+        (k ≠ .write → (r.nullIdentify.data ++ r.identify) = W.imageBytes ((W.selectPresent pb cols).map (·.1)) (rows[i]).1) ∧
+        (k ≠ .delete → (r.nullData.data ++ r.data) = W.imageBytes ((W.selectPresent pa cols).map (·.1)) (rows[i]).2) := by
+  have hlt : W.rowsEventType k v2 < 256 := by cases k <;> cases v2 <;> decide
+  have hT : evType (hdr ++ W.rowsBody k v2 idw id flags extra (cols.map (·.1)) pb pa rows)
+      = .ok (W.rowsEventType k v2) := by
+    unfold evType Bytes.get
+    rw [List.getElem?_append_left (by omega), h4]
+    simp only [Res.ok_bind, Res.pure_eq, UInt8.toNat_ofNat', Nat.mod_eq_of_lt hlt]
+  have hS : (hdr ++ W.rowsBody k v2 idw id flags extra (cols.map (·.1)) pb pa rows).sliceFrom f.headerLength
+      = .ok (W.rowsBody k v2 idw id flags extra (cols.map (·.1)) pb pa rows) := by
+    rw [hf]; exact C15.sliceFrom_app hdr _ 19 hh.symm
+  have hpos : (if (if idw = 4 then 6 else if v2 then 10 else 8) = 6 then 4 else 6) = idw := by
+    rcases hidw with rfl | rfl <;> cases v2 <;> simp
+  have hkw : ((k != .write) = true) ↔ k ≠ .write := by cases k <;> decide
+  have hkd : ((k != .delete) = true) ↔ k ≠ .delete := by cases k <;> decide
+  have key := rows_walk f _ _ _ _ hT hS hhs (k != .write) (k != .delete) v2
+    (by cases k <;> cases v2 <;> decide) (by cases k <;> cases v2 <;> decide) (by cases k <;> cases v2 <;> decide)
+    (by cases k <;> decide) idw id flags hpos hfl extra hex cols hne hn pb pa hpb hpa rows
+    (fun r hr => ⟨fun h => (hrows r hr).1 (hkw.mp h), fun h => (hrows r hr).2 (hkd.mp h)⟩)
+    (by
+      intro r hr
+      have := hwide r hr
+      simpa only [rowBytes, hkw, hkd] using this)
+    (rowsBody_eq k v2 idw id flags extra cols pb pa rows)
+  refine ⟨_, key, rfl, by simp, ?_, ?_, ?_⟩
+  · intro h; simp only [hkw.mpr h, if_pos]
+  · intro h; simp only [hkd.mpr h, if_pos]
+  · intro i hi
+    refine ⟨mkRow (k != .write) (k != .delete) (W.selectPresent pb cols) (W.selectPresent pa cols)
+        (if (k != .write) = true then (W.selectPresent pb cols).length else 0)
+        (if (k != .delete) = true then (W.selectPresent pa cols).length else 0) rows[i],
+      by simp only [List.getElem?_map, List.getElem?_eq_getElem hi, Option.map_some], ?_, ?_⟩
+    · intro h; simp only [mkRow, hkw.mpr h, if_pos]; rfl
+    · intro h; simp only [mkRow, hkd.mpr h, if_pos]; rfl
+
 end C09R
 end GV
